@@ -41,6 +41,8 @@ CONDITIONS = [
     # workers keep a get_all_pages() cursor open while they work
     {"name": "open-cursor", "backup": False, "bootstrap": True, "cursor": True},
     {"name": "default-path-db+open-cursor", "backup": False, "bootstrap": True, "default_path": True, "cursor": True},
+    # ... and the sandbox bootstrap page is not stored yet: the first Lua use of each worker wants to write it
+    {"name": "open-cursor+no-bootstrap-page", "backup": False, "bootstrap": False, "cursor": True},
 ]
 
 
@@ -149,6 +151,10 @@ class Conn(sqlite3.Connection):
             try:
                 return fn(*a)
             except sqlite3.OperationalError as e:
+                # SQLITE_BUSY_SNAPSHOT (a stale read snapshot cannot be upgraded to a write) is not subject to the busy
+                # handler: SQLite fails the statement at once, whatever the timeout, so the code under test gets it
+                if getattr(e, "sqlite_errorname", "") == "SQLITE_BUSY_SNAPSHOT":
+                    raise
                 if SCHED is not None and ("locked" in str(e) or "busy" in str(e)) and not SCHED.giveup:
                     SCHED.point(name + ":blocked", blocked=True)
                     continue
